@@ -18,7 +18,7 @@ pub const KEYS: &[&str] = &["a", "b", "c", "d", "k1", "k2", "name", "tags", "ite
 pub const STRS: &[&str] = &[
     "", "x", "y", "abc", "ABC", "true", "null", "10", "007", "a b", "a/b", "x-y_z", "Hello World", "AWS::S3::Bucket",
     "é", "日本語", "naïve café", "😀", "aé😀z", "ключ", "line1\nline2", "tab\there", "quote\"q", "it's", "%41%20b", "{\"j\":1}", "2024-01-01T00:00:00Z",
-    "arn:aws:s3:::bucket", "/slash/", "back\\slash", "#hash", "key: value", "- item", "[1,2]", "ｆｕｌｌ", "\u{7f}", "e\u{301}",
+    "2024-08-21T00:00:00", "2024-08-21", "2024-08-21T23:30:00.5", "2024-08-21T00:00:00+09:00", "arn:aws:s3:::bucket", "/slash/", "back\\slash", "#hash", "key: value", "- item", "[1,2]", "ｆｕｌｌ", "\u{7f}", "e\u{301}",
 ];
 pub const INTS: &[i64] = &[0, 1, -1, 2, 3, 5, 10, 42, 100, 443, 8080, 65535, i32::MAX as i64, i32::MIN as i64, i64::MAX, i64::MIN + 1, 1234567890123];
 pub const FLOATS: &[f64] = &[0.0, 0.5, 1.5, -2.25, 3.14159, 1e10, 1e-7, 100.0, 1.0e308, -0.0];
